@@ -153,6 +153,10 @@ def run_verus_unit(u, repo, bdir):
                         "mode": f.get("mode:") or f.get("mode")}
     res["solver_time_s"] = smt.get("smt-run", 0) / 1000.0
     details = {k.split("::", 1)[1] if "::" in k else k for k in out.get("func-details", {}).keys()}
+    if "vx_canary" not in fb and diags:
+        res["reason"] = "verus rejected the generated unit before verification: " + "; ".join(d["message"] for d in diags[:3])
+        res["wall_s"] = time.time() - t0
+        return res
     if "vx_canary" not in fb or fb["vx_canary"]["ok"]:
         res["reason"] = "vacuity canary did not fail: the unit's axioms are inconsistent or the canary is missing"
         res["wall_s"] = time.time() - t0
